@@ -927,6 +927,29 @@ class Gen:
             if fs and r.random() < 0.5:
                 f = r.choice(fs)
                 return ("assign", [n for n, _ in picks], [("call", f[0], [self.expr(pt, scope, 2) for _, pt in f[1]], f[2])])
+            if r.random() < 0.4:
+                # right-hand sides that read other targets of the same statement, also through `( )` and itoa:
+                # every value must be taken before any target is written
+                rhs = []
+                for n_, t_ in picks:
+                    same = [pn for pn, pt in picks if pt == t_ and pn != n_]
+                    ints_ = [pn for pn, pt in picks if pt == "int" and pn != n_]
+                    form = r.random()
+                    if same and form < 0.55:
+                        e = ("var", r.choice(same), t_)
+                        if r.random() < 0.6:
+                            e = ("group", e)
+                    elif t_ == "string" and ints_ and form < 0.9:
+                        e = ("itoa", ("var", r.choice(ints_), "int"))
+                        if r.random() < 0.3:
+                            e = ("group", e)
+                    elif t_ == "int" and form < 0.8:
+                        e = ("bin", "+", ("var", n_, "int"), ("int", 1), "int")
+                    else:
+                        e = self.expr(t_, scope, 2)
+                    rhs.append(e)
+                self.count("multiassign-cross")
+                return ("assign", [n for n, _ in picks], rhs)
             return ("assign", [n for n, _ in picks], [self.expr(t, scope, 2) for _, t in picks])
         self.count("assign")
         n, t = r.choice(cands)
